@@ -163,6 +163,43 @@ def live_operands(chk, cplx, good):
                                                                       note="first operand doubled in place between the calls"))
 
 
+def wide_values(chk, cplx, good):
+    """Mixed precision: the library's constant cplx.I is a float32 tensor, the operand next to it is float64.  The
+    kernel converts the SECOND operand to the first one's type, which is exact for the constant - so the result is
+    what complex arithmetic gives on the decoded operands to full double precision.  Operand values here are the
+    exported Gaussian integers times 2^24 + 1 (exact in float64, not representable in float32): an implementation
+    that computes in the precision of the constant shows."""
+    import torch
+    S = float(2 ** 24 + 1)
+    for rec in good:
+        fam = rec["opt"][0]
+        if rec["def"] != "ok" or len(fam) != 2 or fam[1] != "I" or fam[0] == "I":
+            continue
+        if rec["op"] == "scalar_mult" and rec["opt"][1][0] != "none":
+            continue
+        f = LINEAR_IN_FIRST.get(rec["op"])
+        if f is None:
+            continue
+        x = cb.tens(rec["args"][0], 0)
+        try:
+            v1 = f(cplx, [x, cplx.I])
+            v2 = f(cplx, [x * S, cplx.I])
+        except Exception as ex:      # noqa: BLE001
+            chk.violation(cb.key(rec, "wide-values:raised"), dict(case=rec, raised=repr(ex)))
+            continue
+        chk.evaluations += 1
+        if v2.dtype != torch.float64 or v2.shape != v1.shape or not torch.equal(v2, v1.to(torch.float64) * S):
+            chk.violation(cb.key(rec, "wide-values"), dict(case=rec, scale="2^24+1", dtype=str(v2.dtype), got=v2.tolist(),
+                                                          expected=(v1.to(torch.float64) * S).tolist(),
+                                                          reproducer=cb.reproducer(rec)))
+        chk.nontriv(("wide-values", rec["op"]))
+
+
+LINEAR_IN_FIRST = dict({k: v for k, v in BILINEAR.items() if v is not None},
+                       elementwise_division=lambda c, a: c.elementwise_division(a[0], a[1]),
+                       scalar_divide=lambda c, a: c.scalar_divide(a[0], a[1]))
+
+
 class Patched:
     """The library module with some attributes replaced (negative controls only)."""
 
@@ -307,6 +344,7 @@ def run(tier, seed):
             good = replay_cases(chk, cplx, recs)
             out_variants(chk, cplx, good)
             live_operands(chk, cplx, good)
+            wide_values(chk, cplx, good)
             controls(chk, cplx, good)
         for r in recs[:: max(1, len(recs) // 6)][:6]:
             chk.sample(json.dumps(dict(op=r["op"], opt=r["opt"], args=r["args"], defined=r["def"], exp=r["exp"])))
